@@ -42,14 +42,14 @@ func (m *Lease4) Judge(client string, replied bool, yiaddr net.IP) (sig, msg str
 		return "yiaddr-not-ipv4", fmt.Sprintf("reply to %s carries yiaddr %v", client, yiaddr)
 	}
 	y := binary.BigEndian.Uint32(y4)
+	if y < m.Start || y > m.End {
+		return "outside-range", fmt.Sprintf("client %s was given %s outside [%s,%s]", client, U32IP(y), U32IP(m.Start), U32IP(m.End))
+	}
 	if known {
 		if y != ip {
 			return "address-changed", fmt.Sprintf("client %s was first given %s and now gets %s", client, U32IP(ip), U32IP(y))
 		}
 		return "", ""
-	}
-	if y < m.Start || y > m.End {
-		return "outside-range", fmt.Sprintf("client %s was given %s outside [%s,%s]", client, U32IP(y), U32IP(m.Start), U32IP(m.End))
 	}
 	if other, taken := m.ByIP[y]; taken {
 		return "address-shared", fmt.Sprintf("client %s was given %s which is bound to client %s", client, U32IP(y), other)
